@@ -66,17 +66,6 @@ def find_element_that_meets_mh(stack, metahandler):
     raise IndexError
 
 
-def take_from_stacks(stacks: dict[type, list[Any]], ty: type, first: bool = False) -> Any:
-    """Removes and returns a value of type ty; a refined type takes, from the stack of its base
-    type, a value that its metahandler validates. Raises IndexError when there is none."""
-    if is_metahandler(ty):
-        metahandler = get_args(ty)[1]
-        base_type = get_generic_parameter(ty)
-        index = find_element_that_meets_mh(stacks[base_type], metahandler)
-        return stacks[base_type].pop(index)
-    return stacks[ty].pop(0) if first else stacks[ty].pop()
-
-
 def create_tree_using_stacks(g: Grammar, r: ListWrapper, failures_limit=100):
     # Refined (Annotated) types have no stack of their own: a refined field takes a value that its
     # metahandler validates from the stack of the base type (see find_element_that_meets_mh).
@@ -114,30 +103,20 @@ def create_tree_using_stacks(g: Grammar, r: ListWrapper, failures_limit=100):
             elif is_generic_tuple(target_type):
                 args = []
                 for inner_type in get_generic_parameters(target_type):
-                    ret = take_from_stacks(stacks, inner_type, first=True)
+                    ret = stacks[inner_type].pop(0)
                     args.append(ret)
                 v = tuple(args)
                 add_to_stacks(stacks, target_type, v)
             elif is_generic_list(target_type):
                 inner_type = get_generic_parameters(target_type)[0]
-                if is_metahandler(inner_type):
-                    # elements of a refined type: validated values of the base type
-                    metahandler = get_args(inner_type)[1]
-                    base_type = get_generic_parameter(inner_type)
-                    valid = [el for el in stacks[base_type] if metahandler.validate(el)]
-                    length = r.randint(0, len(valid))
-                    ret = valid[:length]
-                    for el in ret:
-                        stacks[base_type].remove(el)
-                else:
-                    length = r.randint(0, len(stacks[inner_type]))
-                    ret = stacks[inner_type][:length]
-                    stacks[inner_type] = stacks[inner_type][length:]
+                length = r.randint(0, len(stacks[inner_type]))
+                ret = stacks[inner_type][:length]
+                stacks[inner_type] = stacks[inner_type][length:]
                 add_to_stacks(stacks, target_type, ret)
             elif is_union(target_type):
                 alternatives = get_generic_parameters(target_type)
                 ty = r.choice(alternatives)
-                ret = take_from_stacks(stacks, ty)
+                ret = stacks[ty].pop()
                 add_to_stacks(stacks, target_type, ret)
             elif target_type in g.alternatives:
                 compatible_productions = g.alternatives[target_type]
@@ -147,8 +126,13 @@ def create_tree_using_stacks(g: Grammar, r: ListWrapper, failures_limit=100):
             else:
                 args = []
                 for _, argt in get_arguments(target_type):
-                    if argt in stacks or is_metahandler(argt):
-                        arg = take_from_stacks(stacks, argt)
+                    if argt in stacks:
+                        arg = stacks[argt].pop()
+                    elif is_metahandler(argt):
+                        metahandler = get_args(argt)[1]
+                        base_type = get_generic_parameter(argt)
+                        index = find_element_that_meets_mh(stacks[base_type], metahandler)
+                        arg = stacks[base_type].pop(index)
                     else:
                         raise IndexError()
                     args.append(arg)
